@@ -87,6 +87,10 @@ def plan(tier, seed):
             units.append({'kind': 'scal', 'flavour': fl, 'part': c, 'parts': ns, 'rand': 40 if quick else 2500,
                           'weight': 4 if quick else 10})
         units.append({'kind': 'misc', 'flavour': fl, 'weight': 1})
+        # every entry of the fixed-base table (37 windows x 64 multiples), as data and through single-digit scalars
+        nt = 4
+        for c in range(nt):
+            units.append({'kind': 'table', 'flavour': fl, 'part': c, 'parts': nt, 'weight': 3})
     return units
 
 
@@ -985,8 +989,15 @@ class Walker(object):
         return self.cur
 
 
+_EXC = []
+
+
 def classify_generator_failure(k):
-    hits = Z.comb_doubling_step(k, 7)
+    """A wrong fixed-base result is keyed by whether k is one of the scalars for which a width-7 comb adds a table
+    point to itself (computed once from the recoding model, independent of the library)."""
+    if not _EXC:
+        _EXC.append(Z.comb_exceptional_scalars(7))
+    hits = [i for lo, hi, i, d in _EXC[0] if lo <= k <= hi]
     return ('wrong-result:add_affine-doubling', hits) if hits else ('wrong-result', hits)
 
 
@@ -1144,6 +1155,46 @@ def u_scal(ctx, u):
     env.close()
 
 
+def u_table(ctx, u):
+    """sm2_z256_pre_comp[i][j-1] must be [j * 2^(7i)]G (affine, Montgomery); each entry is also exercised through
+    mul_generator with a scalar whose width-7 Booth recoding has the digit +j (resp. -j) in window i."""
+    env = Env(ctx)
+    lib = ctx.lib
+    have_sym = lib.has('sm2_z256_pre_comp')
+    tab = lib.addr('sm2_z256_pre_comp') if have_sym else None
+    if not have_sym:
+        ctx.stat('info_table_symbol_not_exported')
+    rt = Routes(env, G, Z.jac_mont(G, 1), 'G,Z=1')
+    for i in range(u['part'], 37, u['parts']):
+        step = E.mul(1 << (7 * i), G)
+        acc = INF
+        for j in range(1, 65):
+            acc = E.add(acc, step)
+            if (j << (7 * i)) >= R:
+                break
+            ctx.begin(['table', i, j])
+            if have_sym:
+                raw = ctypes.string_at(tab + (i * 64 + (j - 1)) * 64, 64)
+                env.ok(raw == Z.affine_mont(acc), 'pre_comp_table', 'wrong-entry', window=i, multiple=j, got=raw.hex(),
+                       want=Z.affine_mont(acc).hex())
+                env.nt('table-data', i, j)
+            # positive digit j in window i: k = j*2^(7i) for j <= 63, (63*2^(7i) + 2^(7i-1)) gives digit 64 (and -64 below)
+            if j <= 63:
+                k = j << (7 * i)
+                assert Z.booth(k, 7, i) == j
+                rt.gen(k, acc)
+            elif i > 0:
+                k = (63 << (7 * i)) + (1 << (7 * i - 1))
+                assert Z.booth(k, 7, i) == 64 and Z.booth(k, 7, i - 1) == -64
+                rt.gen(k, E.mul(k, G))
+            # negative digit -j in window i: k = 2^(7(i+1)) - j*2^(7i)
+            k = (1 << (7 * (i + 1))) - (j << (7 * i))
+            if 0 < k < R and Z.booth(k, 7, i) == -j:
+                rt.gen(k, E.add(E.mul(1 << (7 * (i + 1)), G), E.neg(acc)))
+    ctx.sample({'kind': 'table', 'flavour': ctx.flavour, 'windows': list(range(u['part'], 37, u['parts'])), 'data_symbol': have_sym})
+    env.close()
+
+
 def run_unit(ctx, u):
     t0 = time.process_time()
     _run_unit(ctx, u)
@@ -1152,4 +1203,4 @@ def run_unit(ctx, u):
 
 def _run_unit(ctx, u):
     {'int': u_int, 'booth': u_booth, 'modp': u_modp, 'modn': u_modn, 'point': u_point, 'misc': u_misc,
-     'dense': u_dense, 'scal': u_scal}[u['kind']](ctx, u)
+     'dense': u_dense, 'scal': u_scal, 'table': u_table}[u['kind']](ctx, u)
